@@ -382,6 +382,10 @@ def rule_type_grammar(ctx):
                 problems.append("first character is not restricted to a-z")
         run.check(not problems, R, key(rel, name, "structure"), "; ".join(problems), file=rel, line=b.lineno, function="<module>",
                   expected="anchored, alphabet [a-z0-9-]%s" % (", first char a-z" if first_letter else ""), found=rx.pattern)
+    # the exact language of both regexes (automata): a type name outside the grammar can be registered -- or a legal one
+    # cannot -- exactly when one of the inclusions fails
+    from .regexlang import rule_regex_languages
+    rule_regex_languages(ctx, R, ["sound", "complete"], only=("type-name-2.0", "type-name-2.1"))
     # length rule 3..250
     lens = [n for n in body_walk(fi.node) if isinstance(n, ast.If) and "len(" in norm(n.test) and any(isinstance(s, ast.Raise) for s in n.body)]
     reg = IntSet.empty()
